@@ -8,8 +8,10 @@ PID = "C01"
 RULE = ("environments of 1-3 shapes of all kinds (simple bounded/unbounded, holes, several components, Empty, Whole) with "
         "pairwise boundaries in general position (exact test: only transversal crossings), int / Fraction coordinates "
         "(and a float stream for single | & -), expressions over | & - ^ ~ + * neg up to depth 3; judged at one point of "
-        "every cell of the edge arrangement of all operands (complete for polygons); a curated curved corpus (circle vs "
-        "square / circle) runs in the thorough tier; non-trivial = the operand boundaries cross (>= 2 crossings) or an "
+        "every cell of the edge arrangement of all operands (complete for polygons); curved stream: the cap under a parabola (one quadratic segment) "
+        "against polygons in general position, | & - both ways, closed-form membership oracle, half of the cases with a "
+        "polygon corner inside the lens between an arc piece and its chord; a curated curved corpus (circle vs square / "
+        "circle) runs in the thorough tier; non-trivial = the operand boundaries cross (>= 2 crossings) or an "
         "operand has a hole / second component, and no operand is Empty/Whole; distinct = SHA-1 of the case")
 PROOF_STATUS = ("Props/C01.v: C01_expressions (all expressions from one-step soundness of | & ~), C01_never_hangs "
                 "(all inputs); one-step soundness of the recombination is the explicit premise (C01_partial)")
@@ -18,6 +20,13 @@ TRUSTED_EXTRA = ["oracle: exact slab sampling of the edge arrangement + crossing
 
 def cases(ctx):
     yield from OC.gen_cases(ctx, ctx.n(36, 900), ctx.n(16, 500))
+    # curved operand with a closed-form oracle: the cap under a parabola against polygons (float data; no ^: F17)
+    from .. import curved as C
+    for i in range(ctx.n(12, 240)):
+        case = C.lens_case(ctx.rng) if i % 2 == 0 else C.cap_case(ctx.rng)
+        if case:
+            for op in ("|", "&", "-", "B-A"):
+                yield dict(case, op=op)
     if ctx.thorough():
         rng = ctx.rng
         for i in range(24):
@@ -26,7 +35,7 @@ def cases(ctx):
 
 
 def nontrivial(case):
-    if case.get("curved"):
+    if case.get("curved") or "cap" in case:
         return True
     return OC.nontrivial(case)
 
@@ -66,9 +75,34 @@ def _curved(ctx, case):
     return fails
 
 
+def _cap(ctx, case):
+    from .. import curved as C
+    op = case["op"]
+    A, B = C.mk(case)
+    f = {"|": lambda: A | B, "&": lambda: A & B, "-": lambda: A - B, "B-A": lambda: B - A}[op]
+    truth = {"|": lambda a, b: a or b, "&": lambda a, b: a and b, "-": lambda a, b: a and not b, "B-A": lambda a, b: b and not a}[op]
+    ctx.count("cap:" + op)
+    try:
+        with U.time_limit(120):
+            r = I.outcome(f)
+    except U.Timeout:
+        return [Fail(kind="O", what="operator on the parabola cap does not return (120 s)", op=op)]
+    if r[0] != "ok":
+        return [Fail(kind="O", what="operator raised on a parabola cap and a polygon in general position", op=op, impl=r)]
+    sd = I.shape_data(r[1])
+    pts = C.sample_points(case, sd, ctx.rng)
+    bad = [p for p, ia, ib in pts if C.region_float(sd, p) != truth(ia, ib)]
+    if bad:
+        return [Fail(kind="O", what="result is not the set-theoretic combination at %d of %d sample points (closed-form oracle)" % (len(bad), len(pts)),
+                     op=op, first=list(bad[0]))]
+    return []
+
+
 def check(ctx, case):
     if case.get("curved"):
         return _curved(ctx, case)
+    if "cap" in case:
+        return _cap(ctx, case)
     fails = []
     env, e, num = case["env"], case["expr"], case["num"]
     exact = num != "float"
